@@ -56,11 +56,18 @@ def _one(name: str, tier: str) -> dict:
         if rc != 0:
             res['verdict'] = 'patch-does-not-apply'
         else:
-            env = dict(os.environ, VERIF_REPO=wt)
-            try:
-                rc, out = sh([os.path.join(VERIF, 'check'), prop, '--tier', tier], cwd=VERIF, env=env)
-            except subprocess.TimeoutExpired:
-                rc, out = 2, 'TIMEOUT'
+            # first at plain quick size (no escalation on a changed source pin); a miss there is re-run the way
+            # the check is registered (a changed pin makes the quick tier run at thorough size)
+            rc, out = 0, ''
+            for pin_deep in ('0', '1'):
+                env = dict(os.environ, VERIF_REPO=wt, VERIF_PIN_DEEP=pin_deep)
+                try:
+                    rc, out = sh([os.path.join(VERIF, 'check'), prop, '--tier', tier], cwd=VERIF, env=env)
+                except subprocess.TimeoutExpired:
+                    rc, out = 2, 'TIMEOUT'
+                res['size'] = 'quick size' if pin_deep == '0' else 'as registered (pin change => thorough size)'
+                if rc == 1:
+                    break
             lines = [l for l in out.split('\n') if l.startswith('VIOLATION')]
             detail = [l.strip() for l in out.split('\n') if l.startswith('  ')]
             if rc == 1 and lines and not all(l.endswith('no-failing-input-found') for l in lines):
@@ -78,7 +85,7 @@ def _one(name: str, tier: str) -> dict:
     res['wall_s'] = round(time.time() - t0, 1)
     hist = meta.setdefault('history', [])
     hist.append({'repo_head': head('/repo'), 'verif_head': head(VERIF), 'tiers': [tier], 'verdict': res['verdict'],
-                 'first': res.get('first', '')})
+                 'size': res.get('size', ''), 'first': res.get('first', '')})
     vs = [h['verdict'] for h in hist]
     meta['last_result'] = res['verdict'] if len(set(vs)) == 1 else f"{res['verdict']} (history: " + ' -> '.join(vs) + ')'
     json.dump(meta, open(os.path.join(d, 'meta.json'), 'w'), indent=1)
@@ -96,12 +103,13 @@ def write_table() -> None:
         first = hist[0]['verdict'] if hist else '(not recorded)'
         last = hist[-1] if hist else {}
         rows.append((name, m.get('property', ''), (m.get('summary') or '').replace('|', '/')[:150], first,
-                     last.get('verdict', m.get('last_result', '')), last.get('repo_head', ''), (last.get('first') or '').replace('|', '/')[:120]))
+                     last.get('verdict', m.get('last_result', '')), last.get('size', ''), last.get('repo_head', ''),
+                     (last.get('first') or '').replace('|', '/')[:120]))
     with open(os.path.join(VERIF, 'seeded', 'RESULTS.md'), 'w') as f:
         f.write('# Seeded changes: verdict of the registered quick check\n\n'
                 'Generated by `tools_reseed.py`. "first run" is the verdict when the seed was first confirmed (before any '
                 'strengthening it triggered); "last run" is the latest re-run against the /repo HEAD named in the next column.\n\n'
-                '| seed | property | change | first run | last run | /repo HEAD | first reported failing input |\n|---|---|---|---|---|---|---|\n')
+                '| seed | property | change | first run | last run | run size | /repo HEAD | first reported failing input |\n|---|---|---|---|---|---|---|---|\n')
         for r in rows:
             f.write('| ' + ' | '.join(str(x) for x in r) + ' |\n')
         n = len(rows)
